@@ -150,6 +150,14 @@ void OPNMIDIplay::applySetup()
     synth.reset(m_setup.emulator, m_setup.PCM_RATE, static_cast<OPNFamily>(chipType), this);
     m_chipChannels.clear();
     m_chipChannels.resize(synth.m_numChannels, OpnChannel());
+    // The chip channels were re-created: forget the notes that were playing on the old ones
+    for(size_t c = 0; c < m_midiChannels.size(); ++c)
+    {
+        MIDIchannel &ch = m_midiChannels[c];
+        ch.activenotes.clear();
+        ch.gliding_note_count = 0;
+        ch.extended_note_count = 0;
+    }
     resetMIDIDefaults();
 #if defined(OPNMIDI_MIDI2VGM) && !defined(OPNMIDI_DISABLE_MIDI_SEQUENCER)
     m_sequencerInterface->onloopStart = synth.m_loopStartHook;
